@@ -106,6 +106,34 @@ class SigKwOnlySlots:
         self.host, self.port, self.timeout = host, port, timeout
 
 
+class LayeredDict(dict):
+    """a dict subclass whose view of its pairs is its own (a scope with a parent): items() is the interface"""
+
+    def __init__(self, own, parent=()):
+        super().__init__(own)
+        self._parent = dict(parent)
+
+    def _all(self):
+        d = dict(self._parent)
+        d.update(dict.items(self))
+        return d
+
+    def items(self):
+        return self._all().items()
+
+    def values(self):
+        return self._all().values()
+
+    def keys(self):
+        return self._all().keys()
+
+    def __iter__(self):
+        return iter(self._all())
+
+    def __len__(self):
+        return len(self._all())
+
+
 # structured flavours (module-level, fixed shapes with a first field that can hold anything)
 
 @dataclasses.dataclass
@@ -270,7 +298,7 @@ def case(draw):
     cat = draw(st.sampled_from(["mapping", "structured", "namedtuple", "pairs", "nonpairs", "mixed", "text", "empty"]))
     if cat == "mapping":
         d = draw(st.dictionaries(keys, anyval, max_size=4))
-        kind = draw(st.sampled_from(["dict", "OrderedDict", "MappingProxyType", "CustomMapping"]))
+        kind = draw(st.sampled_from(["dict", "OrderedDict", "MappingProxyType", "CustomMapping", "OrderedDict-reordered", "LayeredDict"]))
         return {"cat": cat, "kind": kind, "content": list(d.items())}
     if cat == "structured":
         kind = draw(st.sampled_from(["DC", "DCFrozen", "DCSlots", "Plain", "SlotsOnly", "VarsOnly", "SlotsAnn", "SlotsAnnSub", "SlotsReordered", "DCSub", "DCMapNames", "SlotsMapNames",
@@ -316,6 +344,14 @@ def build(c):
         content = eval(content)  # noqa: S307 - replay path
     if cat == "mapping":
         d = dict(content)
+        if kind == "OrderedDict-reordered":
+            x = collections.OrderedDict(d)
+            for k_ in list(d)[: max(1, len(d) // 2)]:
+                x.move_to_end(k_)            # the order of an OrderedDict is what it says it is, not its insertion history
+            return x, list(x.items()), list(x.values()), True, None
+        if kind == "LayeredDict":
+            x = LayeredDict(d, parent={"__parent__": 0})
+            return x, list(x.items()), list(x.values()), True, None
         x = {"dict": dict, "OrderedDict": collections.OrderedDict, "MappingProxyType": types.MappingProxyType,
              "CustomMapping": CustomMapping}[kind](d)
         return x, list(d.items()), list(d.values()), True, None
